@@ -459,6 +459,30 @@ func (p *planRun) deliver(phase string, senders []int, msgs [][]item) bool {
 	return true
 }
 
+// announceProbe: a peer announces that it holds blocks up to head+ahead (ahead >= 1). Whatever
+// the distance, a node that is behind asks for the blocks above its head ("keeps requesting
+// blocks above its head"): a GETB naming the node's head must follow.
+func (p *planRun) announceProbe(s int, ahead uint64) {
+	pr := p.peers[s]
+	from := len(pr.Recv)
+	p.lastUsed[pr] = time.Now()
+	p.logf("announce head=%d peer%d announces %d", p.head, s, p.head+ahead)
+	if err := pr.Send("ANNB", wire.U64Body(p.head+ahead)); err != nil || !pr.Barrier(watchdog) {
+		p.r.Inconclusive("announce probe: peer write or barrier failed")
+		p.failed = true
+		return
+	}
+	g, _ := lastRequests(pr, from)
+	p.r.Count("announce.probes", 1)
+	p.r.Count(fmt.Sprintf("announce.probes.ahead-%d", ahead), 1)
+	if g != int64(p.head) {
+		p.viol("no-block-request-after-announcement", map[string]string{"head": fmt.Sprint(p.head), "announced": fmt.Sprint(p.head + ahead), "ahead": fmt.Sprint(ahead), "getb_last_block": fmt.Sprint(g)}, nil)
+		p.failed = true
+		return
+	}
+	p.r.Count("announce.request-follows-head", 1)
+}
+
 func shape(msgs [][]item) string {
 	var s []string
 	for _, m := range msgs {
@@ -689,6 +713,12 @@ func runPlan(r *vf.Run, bin, dir string, idx int, race bool) (stderr []byte, set
 		forgeAt[1+rng.Intn(steps-1)] = classes[(fidx+4)%len(classes)]
 	}
 	for s := 0; s < steps && !p.failed; s++ {
+		if rng.Intn(4) == 0 {
+			p.announceProbe(rng.Intn(np), []uint64{1, 1, 2, 3, 50}[rng.Intn(5)])
+			if p.failed {
+				break
+			}
+		}
 		if class, ok := forgeAt[s]; ok && p.head < p.n {
 			seq := p.head + 1
 			m := []item{{Seq: seq, Class: class, Block: p.rc.forge(p.rng, int(seq), class)}}
@@ -706,6 +736,9 @@ func runPlan(r *vf.Run, bin, dir string, idx int, race bool) (stderr []byte, set
 		} else {
 			p.deliver("chaos", []int{rng.Intn(np)}, [][]item{p.randomMessage(forgeRate)})
 		}
+	}
+	if !p.failed {
+		p.announceProbe(rng.Intn(np), 1)
 	}
 	// --- closing phase: a peer answers the follower's requests from what it holds, in order
 	for !p.failed {
